@@ -561,7 +561,8 @@ func run(c *hl.Ctx) {
 		"bodies are a fixed position-dependent byte pattern with an embedded 'FLV'/tag-header lookalike; body content does not influence the muxer or demuxer beyond its length",
 		"a reader may legally return fewer bytes than asked, and may return the final bytes together with io.EOF",
 		"a reader may legally return (0, nil) (package io: callers should treat a return of 0 and nil as indicating that nothing happened; in particular it does not indicate EOF); only isolated empty results are modelled, never two in a row",
-		"in family readers the tag type and timestamp do not take every combination per position (they rotate through the alphabets): what the demuxer asks of the reader depends on the body sizes only; type x timestamp x size products are family full's")
+		"bodies between 65536 and 2^24-1 bytes are represented by the sizes of family large (the upper neighbours of 2^16 and 2^17 and sizes aligned to nothing); a demuxer whose behaviour changes at another size in between is not distinguished",
+		"in families readers and large the tag type and timestamp do not take every combination per position (they rotate through the alphabets): what the demuxer asks of the reader depends on the body sizes only; type x timestamp x size products are family full's")
 
 	e := &enum{c: c}
 	w := 40
@@ -579,12 +580,18 @@ func run(c *hl.Ctx) {
 		rule += "Family d3-small: every sequence of 3 tags over type x timestamp x size {0,1,255,256} (140^3), flags rotating, split window 16 above 160 bytes. Family d3-big: every sequence of 3 tags over type {8,9,255} x timestamp {1,0x1000000,0xFFFFFFFF} x all six sizes with at least one body >= 65535, flags rotating, split window 16. Family max-body: body of 2^24-1 bytes alone and next to a second tag. "
 	}
 	rule += readersRule(c)
+	rule += largeRule(c)
 	rule += "Each case of the other families: library muxer output compared byte for byte with the independent writer and parsed by the independent parser; library demuxer run on the library-written and on the reference-written bytes under whole / EOF-with-data / one-byte / every two-piece segmentation, every returned value compared. Non-trivial = distinct case with >= 1 tag whose file was written without error and read back identically under every segmentation."
 	c.Rule(rule)
 	c.Info("max_sequence_length", depth)
 
 	// family readers (readers.go): product of reader behaviours over size-driven sequences
 	if !runReaders(c, e, w) {
+		return
+	}
+
+	// family large (large.go): the reader product behind bodies above 65536 bytes
+	if !runLarge(c, e, w) {
 		return
 	}
 
@@ -687,7 +694,7 @@ func replay(c *hl.Ctx, raw json.RawMessage) {
 	if cs.AllBelow == 0 {
 		cs.AllBelow = 2048
 	}
-	if cs.Family == "readers" && cs.Reader != nil {
+	if (cs.Family == "readers" || cs.Family == "large") && cs.Reader != nil {
 		checkReaders(c, &cs, []variant{{cs.Reader.EOFWithData, cs.Reader.Empty}})
 		return
 	}
